@@ -60,6 +60,7 @@ const (
 	fOldUyghur        = "C05-old-uyghur-direction"
 	fInvisible        = "C05-invisible-glyph-ignored"
 	fFigureSpace      = "C05-figure-space-last-digit"
+	fMyanmarFlags     = "C05-myanmar-consonant-flags"
 )
 
 // unconditional (skew / loader / unspecified) classes
@@ -70,7 +71,9 @@ const (
 	sAATRanges      = "skew:aat-feature-ranges"
 	sPairClass0     = "skew:pairpos2-second-class-zero"
 	sMarkBaseMask   = "skew:markbase-search-past-masked-glyph"
+	sMarkBaseMulti  = "skew:markbase-after-multiple-subst"
 	sTifinaghRTL    = "skew:tifinagh-direction-neutral"
+	sIndicPrefOOB   = "unspecified:indic-user-pref-base-past-syllable"
 	lBitmapOnly     = "loader:bitmap-only-extents"
 )
 
@@ -87,6 +90,7 @@ type fontFacts struct {
 	hasVORG         bool
 	featureVarTable bool
 	markAttach      bool // GPOS has a MarkBasePos or MarkLigPos lookup
+	multipleSubst   bool // GSUB has a MultipleSubst lookup
 }
 
 var factsCache = map[*fontEntry]*fontFacts{}
@@ -131,6 +135,13 @@ func facts(fe *fontEntry) *fontFacts {
 			switch st.(type) {
 			case tables.MarkBasePos, tables.MarkLigPos:
 				f.markAttach = true
+			}
+		}
+	}
+	for _, l := range fe.face.GSUB.Lookups {
+		for _, st := range l.Subtables {
+			if _, ok := st.(tables.MultipleSubs); ok {
+				f.multipleSubst = true
 			}
 		}
 	}
@@ -250,6 +261,33 @@ func firstLastRange(r rune) bool {
 	return false
 }
 
+// pairClass0Fallthrough: some GPOS lookup has a PairPos format 2 subtable that covers g1 and gives
+// g2 class 0, followed by another subtable of the same lookup.
+func pairClass0Fallthrough(fe *fontEntry, g1, g2 uint32) bool {
+	for _, l := range fe.face.GPOS.Lookups {
+		for k, st := range l.Subtables {
+			if k == len(l.Subtables)-1 {
+				break
+			}
+			pp, ok := st.(tables.PairPos)
+			if !ok {
+				continue
+			}
+			d, ok := pp.Data.(tables.PairPosData2)
+			if !ok || d.Cov() == nil || d.ClassDef2 == nil {
+				continue
+			}
+			if _, cov := d.Cov().Index(tables.GlyphID(g1)); !cov {
+				continue
+			}
+			if cl, _ := d.ClassDef2.Class(tables.GlyphID(g2)); cl == 0 {
+				return true
+			}
+		}
+	}
+	return false
+}
+
 // defaultIgnorable: Default_Ignorable_Code_Point as the shapers use it.
 func defaultIgnorable(r rune) bool {
 	switch {
@@ -261,6 +299,9 @@ func defaultIgnorable(r rune) bool {
 	}
 	return false
 }
+
+var indicScripts = map[language.Script]bool{language.Bengali: true, language.Devanagari: true, language.Gujarati: true, language.Gurmukhi: true,
+	language.Kannada: true, language.Malayalam: true, language.Oriya: true, language.Tamil: true, language.Telugu: true}
 
 var mcmBelow = map[rune]bool{0x0655: true, 0x06E3: true, 0x08CF: true, 0x08D3: true}
 
@@ -400,28 +441,43 @@ func triage(fe *fontEntry, c *Case, got portResult, want refResult) class {
 	// Precondition: invisible glyph set, neither PRESERVE nor REMOVE flag, a default ignorable in
 	// the item. Weaker predicate: the reference's glyphs minus the invisible glyph are the port's.
 	if c.Invisible != 0 && c.Flags&12 == 0 && ev.Known(fInvisible) {
+		hasIgnorable, hasCn := false, false
 		for _, r := range c.item() {
 			if defaultIgnorable(r) {
-				var rest []uint32
-				for _, g := range ref {
-					if g.ID != uint32(c.Invisible) {
-						rest = append(rest, g.ID)
+				hasIgnorable = true
+			}
+			if !isAssigned(r) {
+				hasCn = true
+			}
+		}
+		if hasIgnorable {
+			// (when the USE unassigned-as-WJ skew applies to the same item, dotted circles are
+			// left out as well and the order is not compared)
+			alsoUse := hasCn && useScripts[got.Script]
+			dc, hasDC := fe.face.NominalGlyph(0x25CC)
+			strip := func(gs []G) []uint32 {
+				var out []uint32
+				for _, g := range gs {
+					if g.ID == uint32(c.Invisible) || alsoUse && hasDC && g.ID == uint32(dc) {
+						continue
 					}
+					out = append(out, g.ID)
 				}
-				var mine []uint32
-				for _, g := range port {
-					if g.ID != uint32(c.Invisible) {
-						mine = append(mine, g.ID)
-					}
+				if alsoUse {
+					sort.Slice(out, func(i, j int) bool { return out[i] < out[j] })
 				}
-				same := len(rest) == len(mine)
-				for i := 0; same && i < len(rest); i++ {
-					same = rest[i] == mine[i]
+				return out
+			}
+			a, b := strip(port), strip(ref)
+			same := len(a) == len(b)
+			for i := 0; same && i < len(a); i++ {
+				same = a[i] == b[i]
+			}
+			if same {
+				if alsoUse {
+					ev.Excluded(sUseUnassigned)
 				}
-				if same {
-					return class{fInvisible, true}
-				}
-				break
+				return class{fInvisible, true}
 			}
 		}
 	}
@@ -446,6 +502,19 @@ func triage(fe *fontEntry, c *Case, got portResult, want refResult) class {
 	// (toys/Sbix1.ttf, RTL, U+2D4B U+0651). Precondition: script Tifinagh, direction RTL.
 	if got.Script == language.Tifinagh && got.Dir == harfbuzz.RightToLeft {
 		return class{sTifinaghRTL, true}
+	}
+	// unspecified: with a user feature 'pref' switched on for every glyph of an Indic syllable,
+	// upstream's final reordering can take a trailing halant as the unformed pref candidate, walk
+	// `base` to the end of the syllable and then write info[base] = POS_BASE_C *outside* the
+	// syllable (the first glyph of the next one, or past the buffer); the port (since 29429d3)
+	// checks the index. What upstream computes there is an accident of memory layout.
+	// Precondition: Indic shaper script and a user feature pref with a non-zero value.
+	if indicScripts[got.Script] {
+		for _, ft := range c.Features {
+			if ft.Tag == "pref" && ft.Value != 0 {
+				return class{sIndicPrefOOB, true}
+			}
+		}
 	}
 	ranged := false
 	for _, ft := range c.Features {
@@ -495,12 +564,28 @@ func triage(fe *fontEntry, c *Case, got portResult, want refResult) class {
 			return class{fGenCatRanges, true}
 		}
 	}
+	// finding: consonantFlagsMyanmar ORs the raw category value of Ra (15 = 0b1111) instead of
+	// 1<<Ra: categories 1..3 (C, IV and DB = U+1037 DOT BELOW) count as consonants and Ra does
+	// not, so the base of a Myanmar syllable is chosen wrongly (pre-base vowels are not moved in
+	// U+1031 U+1031 U+1037). Precondition: Myanmar shaper and the item contains U+1037 or a Ra
+	// (U+1004, U+101B, U+105A).
+	if got.Script == language.Myanmar && ev.Known(fMyanmarFlags) {
+		for _, r := range c.item() {
+			if r == 0x1037 || r == 0x1004 || r == 0x101B || r == 0x105A {
+				return class{fMyanmarFlags, true}
+			}
+		}
+	}
 	if useScripts[got.Script] {
 		hasCn := false
 		for _, r := range c.item() {
 			if !isAssigned(r) {
 				hasCn = true
 			}
+		}
+		if hasCn && c.NotFound != 0 {
+			// (the not-found glyph is a real glyph of the font: lookups act on it per syllable)
+			return class{sUseUnassigned, true}
 		}
 		if hasCn {
 			dc, hasDC := fe.face.NominalGlyph(0x25CC)
@@ -557,6 +642,31 @@ func triage(fe *fontEntry, c *Case, got portResult, want refResult) class {
 	// glyph in between never becomes the first glyph of a pair. Visible only when a default
 	// ignorable keeps its advance (PRESERVE_DEFAULT_IGNORABLES): U+0175 U+00AD U+0396 with
 	// SourceSansPro-Regular.otf kerns the soft hyphen (291) or not (311).
+	// The same skew without any skipped glyph: class kerning split over several subtables of one
+	// lookup. For a pair (g1, g2) where an earlier PairPos format 2 subtable covers g1 with class 0
+	// for g2, libharfbuzz 6.0.0 "applies" the zero record and stops, the port (like upstream since
+	// issues 3824/3888) falls through to the next subtable (FreeSerif "i.": -30 only in the
+	// port). Only the glyphs of such pairs may differ, and only in advances/offsets.
+	if sameOn(port, ref, fID|fCluster) && !sameOn(port, ref, fAdvance|fOffset) {
+		affected := make([]bool, len(port))
+		any := false
+		for i := range port {
+			for j := i + 1; j < len(port) && j <= i+3; j++ {
+				if pairClass0Fallthrough(fe, port[i].ID, port[j].ID) || pairClass0Fallthrough(fe, port[j].ID, port[i].ID) {
+					affected[i], affected[j], any = true, true, true
+				}
+			}
+		}
+		ok := any
+		for i := range port {
+			if !affected[i] && !port[i].same(ref[i]) {
+				ok = false
+			}
+		}
+		if ok {
+			return class{sPairClass0, true}
+		}
+	}
 	if c.Flags&4 != 0 && len(fe.face.GPOS.Lookups) > 0 {
 		for _, r := range c.item() {
 			if defaultIgnorable(r) {
@@ -571,7 +681,7 @@ func triage(fe *fontEntry, c *Case, got portResult, want refResult) class {
 	// all. Estedad-VF.ttf, direction LTR, U+0639 U+0628 U+0651: the shadda is attached
 	// (407,-500) by the reference only. Precondition: GPOS has MarkBasePos/MarkLigPos lookups;
 	// only the offsets of GDEF mark glyphs differ.
-	if f.markAttach && fe.face.GDEF.GlyphClassDef != nil && sameOn(port, ref, fID|fCluster|fAdvance) && (ranged || ev.Known(fMarkBaseCache)) {
+	if f.markAttach && fe.face.GDEF.GlyphClassDef != nil && sameOn(port, ref, fID|fCluster|fAdvance) && (ranged || f.multipleSubst || ev.Known(fMarkBaseCache)) {
 		onlyMarks := true
 		for i := range port {
 			if port[i].XOff != ref[i].XOff || port[i].YOff != ref[i].YOff {
@@ -583,6 +693,15 @@ func triage(fe *fontEntry, c *Case, got portResult, want refResult) class {
 		switch {
 		case onlyMarks && ev.Known(fMarkBaseCache):
 			add(fMarkBaseCache, fOffset)
+		case onlyMarks && f.multipleSubst:
+			// skew: a mark after a later component of a MultipleSubst sequence: the port implements
+			// upstream's fix for harfbuzz issue 4124 (2023: such a glyph is skipped in the search for
+			// the base only when the base coverage does not contain it), libharfbuzz 6.0.0 (2022)
+			// always skips it and attaches to the first glyph of the sequence. Verified by
+			// experiment: with the unconditional skip the port gives the reference's offsets
+			// (Amiri-Regular.ttf, U+06D3 U+08ED: mark at 220,-101 vs 573,-441). Precondition: GSUB
+			// MultipleSubst and GPOS mark attachment lookups; only offsets of GDEF mark glyphs differ.
+			add(sMarkBaseMulti, fOffset)
 		case onlyMarks && ranged:
 			// skew: the backward search for the base of a mark (rewritten upstream in 2023 together
 			// with the fix for issue 4124, and ported) walks past a glyph that does not carry the
